@@ -31,4 +31,6 @@ pub fn vx_min_u64(a: u64, b: u64) -> (r: u64)
 }
 pub assume_specification [i64::unsigned_abs] (x: i64) -> (r: u64)
     ensures r as int == (if x < 0 { -(x as int) } else { x as int });
+pub assume_specification [usize::saturating_add_signed] (x: usize, d: isize) -> (r: usize)
+    ensures r as int == (if x + d < 0 { 0 } else if x + d > usize::MAX { usize::MAX as int } else { x + d });
 // ---- end of prelude/std_specs.rs ----
